@@ -172,7 +172,10 @@ type c01Pos struct {
 	Prio int64  `json:"prio"`
 }
 
+var c01Case int
+
 func c01one(t *testing.T, out *verifh.Out, r *rand.Rand, dir string) {
+	c01Case++
 	n := 2 + r.Intn(4)
 	mode := r.Intn(10) // 0-5 semi-sync, 6-7 async mode (allowed-lag exception configured), 8-9 neither
 	semi := mode <= 5
@@ -243,6 +246,20 @@ func c01one(t *testing.T, out *verifh.Out, r *rand.Rand, dir string) {
 		// replication keeps the replica from catching up by itself before the freeze
 		nd.InstantRepl = false
 		tree.Put("ha_nodes/"+h, mysql.NodeConfiguration{Priority: int64(r.Intn(3))})
+	}
+	// every fourth world with three replicas or more: sets that are not totally ordered — a replica that diverged sits
+	// between a less and a more advanced one, so whether it is compared with the final maximum depends on the order in
+	// which the positions arrive (chosen by case index, not by the generator, so the other worlds stay what they were)
+	if c01Case%4 == 3 && n >= 4 {
+		roles := [][]int{{98, 90, 99}, {98, 99, 90}, {90, 98, 99}, {90, 99, 98}, {99, 90, 98}, {99, 98, 90}}[(c01Case/4)%6]
+		for i, ex := range roles {
+			nd := wd.Nodes[hosts[1+i]]
+			nd.Executed = fmt.Sprintf("%s%s:1-%d", base, um, ex)
+			nd.Retrieved = fmt.Sprintf("%s:1-%d", um, ex)
+			if ex == 90 {
+				nd.Executed += "," + foreign + ":1-3"
+			}
+		}
 	}
 	// request
 	kind := r.Intn(7) // 0-1 to a host, 2 from master (planned), 3 automatic failover, 4 operator-forced failover, 5 worker (no transition),
